@@ -41,7 +41,7 @@ def feel_expr(kind, inner):
 
 
 def quotable(text):
-    return '"' not in text and "\\" not in text and all(32 <= ord(c) < 127 for c in text)
+    return '"' not in text and "\\" not in text and all(32 <= ord(c) < 127 or c in "\u0665\uff15\u096b" for c in text)
 
 
 def reqs_literal(case):
@@ -941,6 +941,8 @@ CORRUPT_SEEDS = [
     ("duration", "PT1M"), ("duration", "P2M"),
 ]
 REPLACEMENTS = "09:-+TZ.@P"
+# decimal digits of other scripts (Arabic-Indic, fullwidth, Devanagari): `\\d` of the regex crate matches them, `[0-9]` does not
+FOREIGN_DIGITS = "\u0665\uff15\u096b"
 
 
 def corrupt_seeds(ctx):
@@ -970,6 +972,8 @@ def enum_corruptions(ctx):
         for i in range(len(text)):
             cands = [("delete", text[:i] + text[i + 1:]), ("duplicate", text[:i] + text[i] + text[i:])]
             cands += [("replace", text[:i] + c + text[i + 1:]) for c in REPLACEMENTS if c != text[i]]
+            if text[i] in "0123456789":
+                cands += [("replace-foreign-digit", text[:i] + c + text[i + 1:]) for c in FOREIGN_DIGITS]
             for how, t in cands:
                 if (kind, t) in seen or not quotable(t):
                     continue
@@ -985,7 +989,7 @@ def setup(ctx):
                 "without literals (date/time from numbers, date-time subtraction, duration sums) whose text must read back; enumerated: every "
                 "whole-minute offset -14:59..+14:59 (+ one with seconds each), every zone identifier known to tzdb 2022a and the system tzdata, "
                 "a 12x34 month/day table over 24 years, 0..12 fraction digits, a duration field grid, single-character corruptions (delete, "
-                "duplicate, replace by each of 0 9 : - + T Z . @ P) of ~80 (quick) / 200 (thorough) valid literals. non-trivial: the literal has "
+                "duplicate, replace by each of 0 9 : - + T Z . @ P, every digit also by a decimal digit of another script) of ~80 (quick) / 200 (thorough) valid literals. non-trivial: the literal has "
                 "a fraction, a negative or non-whole-hour offset, a named zone, a year outside 1000..9999, a negative/fractional/unnormalised "
                 "duration, is invalid by the reference grammar, or is a corruption at edit distance 1; distinct by (kind, text)")
     ctx.assumptions = [
